@@ -113,33 +113,10 @@ def check(run: Run) -> None:
     members = {m.value: m for m in ts.interp.B.enum_members(ts.interp, nt)}
     lits = sorted(token_literal(g, lx, t) or "?" for t in g.tokens_of("todo_prefix"))
     run.floor("todo_prefix tokens", len(lits), 5)
-    got: dict[str, str] = {}
-    for lit in lits:
-        # a ctx whose text is exactly this literal: re-use the hook by narrowing through a one-literal probe
-        tree = set_state_fields(ts.tree0, in_note=True)
-        res = []
-        orig = ts.interp.probes["method:*"]
+    from ..itemscen import item_rules
 
-        def one(I, recv, name, args, kwargs, st, node, lit=lit, orig=orig):
-            if recv.cls.startswith("ctx:todo_prefix") and name == "getText":
-                return [(lit, st)]
-            return orig(I, recv, name, args, kwargs, st, node)
-
-        ts.interp.probes["method:*"] = one
-        try:
-            res = run_handler(ts, model, "enterTodo_prefix", "todo_prefix", "ITEM", tree)
-        finally:
-            ts.interp.probes["method:*"] = orig
-        outs = set()
-        for v, s, root in res:
-            if isinstance(v, Raised):
-                outs.add(f"raises {v.exc}")
-            else:
-                outs.add(repr(state_fields(snap(root, s)).get("todo_status")))
-        want = members.get(lit)
-        run.check("C01.R3", f"prefix {lit!r} yields {want}", outs == {repr(want)}, "enterTodo_prefix", f"{lit!r} -> {sorted(outs)}",
-                  f"an item starting with {lit!r} is compiled as {sorted(outs)}; NoteType({lit!r}) is {want}", file=FILE)
-        got[lit] = ",".join(sorted(outs))
+    # kind, priority, identity, body and look-alike words: generic items driven through the listener in walker order
+    item_rules(run, model, ts.tree0, "C01.R3", "C01.R4", "C01.R5")
     todo_values = sorted(v for v in members if v != "-")
     run.check("C01.R3", "todo_prefix tokens == NoteType todo values", lits == todo_values, "ZorgFileParser/NoteType", f"{lits} vs {todo_values}",
               f"the grammar's todo prefixes {lits} differ from NoteType's todo values {todo_values}", file=FILE)
@@ -149,7 +126,7 @@ def check(run: Run) -> None:
     base_note_events = [ev for ev in ts.notes if ev.handler == "base_note"]
     run.check("C01.R3", "a '-' item has no todo payload", bool(base_note_events) and all(ev.kwargs.get("todo_payload") is None for ev in base_note_events), "exitBase_note", "todo_payload of plain notes",
               "a plain note is constructed with a todo payload", file=FILE)
-    run.sample(dict(rule="C01.R3", table=got))
+    run.sample(dict(rule="C01.R3", prefixes=lits))
 
     # ---- R4 provenance of the item's own fields
     problems: dict = {}
